@@ -88,7 +88,7 @@ BUF_TRUST = [
 def c09(run, a):
     vlib.extract()
     vlib.standard_lean_phase(run, 'BytesVerif.Props.C09')
-    oracle_sound_buf(run, ['read_oracle_sound'])
+    oracle_sound_buf(run, ['read_oracle_sound', 'nth_oracle_sound', 'nth_judge_sound'])
     run.trusted += BUF_TRUST
     dbg = vlib.cargo_build('debug')
     run_buf_stream(run, a, 'C09', 'cursor', dbg, {'C09'})
